@@ -1,5 +1,5 @@
 (* C10 proofs: Hasher compositions, Hash<N> codecs, nonce formulas. *)
-From PV Require Import Lib.Base Crypto.Blake2b Crypto.Blake2bProofs C10.Model.
+From PV Require Import Lib.Base Crypto.Hex Crypto.Blake2b Crypto.Blake2bProofs C10.Model.
 Open Scope Z_scope.
 
 (* ---------- Hasher ---------- *)
